@@ -23,7 +23,8 @@ Suites
   LINT-project    reference-project mode end to end: a project configuration with 2-4 `paths`
                   entries, ProjectFiles.iter_reference, mirror_reference_and_tests, one changed
                   string per file; L10nLinter().lint as cli.py drives it, and lint.cli.main()
-  LINT-properties-text  .properties files against the end-to-end model (Model/LintProps.v), which
+  LINT-properties-text, LINT-ini-text, LINT-dtd-text
+                  files of the format against the end-to-end model (Model/LintText.v), which
                   gets only the two texts (it parses them itself), Junk.junkid and the real
                   checker's results by entity start offset
 The model is fed the implementation's own parse (keys, junk flags, classes, spans),
@@ -1409,7 +1410,15 @@ def suite_project(chk, model, tmp):
 
 
 # -------------------------------------- .properties from the TEXT alone ---
+TEXT_FORMATS = [("properties", 0, "LINT-properties-text"), ("ini", 1, "LINT-ini-text")]
+
+
 def suite_props_text(chk, model, tmp):
+    for fmt_name, code, suite in TEXT_FORMATS:
+        suite_text(chk, model, tmp, fmt_name, code, suite)
+
+
+def suite_text(chk, model, tmp, fmt_name, code, suite):
     """the end-to-end model (Model/LintProps.v: parser model, entity objects, Entry.equals over
     the unescaped values, junk keys, the linter) fed nothing but the two TEXTS, the value of
     Junk.junkid and the real checker's results by entity start offset"""
@@ -1423,7 +1432,7 @@ def suite_props_text(chk, model, tmp):
         with open(path, encoding="utf-8", errors="replace", newline=None) as f:
             return f.read()
     for i in range(chk.n(500, 6000)):
-        c = gen_file_case(rng, tmp, "t%d" % i, fmts=[FMT_BY_NAME["properties"]])
+        c = gen_file_case(rng, tmp, "t%d" % i, fmts=[FMT_BY_NAME[fmt_name]], extra=None)
         j0 = parser.Junk.junkid
         got = run_impl(lambda: impl_dicts(L10nLinter().lint_file(c["path"], c["ref"], None)))
         check_expected(chk, c, got, tmp)
@@ -1447,7 +1456,7 @@ def suite_props_text(chk, model, tmp):
                 res.append([LEVEL[tp], kind, int(pos), 0, len(msgs) - 1, 0])
             if res:
                 results.append([e.span[0], res])
-        reqs.append((5, [j0, canon(text), opt(ref_text, canon), [results]]))
+        reqs.append((5, [j0, canon(text), opt(ref_text, canon), [results], code]))
 
         def dec(out, msgs=msgs, junk_vals=junk_vals):
             if out[0] != 0:
@@ -1468,15 +1477,15 @@ def suite_props_text(chk, model, tmp):
         decs.append(dec)
         cases.append(describe(c))
         impl.append(got)
-        chk.count(("ptext", c["text"], c["ref_text"], c["mode"]))
+        chk.count(("text", fmt_name, c["text"], c["ref_text"], c["mode"]))
         if i == 4:
-            chk.sample({"suite": "LINT-properties-text", "text": text, "reference": ref_text, "impl": got})
+            chk.sample({"suite": suite, "text": text, "reference": ref_text, "impl": got})
         shutil.rmtree(os.path.join(tmp, "t%d" % i), ignore_errors=True)
         shutil.rmtree(os.path.join(tmp, "ref-t%d" % i), ignore_errors=True)
     if model:
         outs = model.call(reqs, chunk=500)
         outs = [d(o) for d, o in zip(decs, outs)]
-        chk.correspond("LINT-properties-text", cases, impl, outs)
+        chk.correspond(suite, cases, impl, outs)
 
 
 FMT_BY_NAME = {f.name: f for f in FORMATS}
